@@ -234,7 +234,8 @@ private:
             // @todo: For now we're reading the whole scanline which is
             // slightly inefficient. Later versions should try to read
             // only the bytes which are necessary.
-            this->_io_dev.read( &row.front(), row.size() );
+            io_error_if( this->_io_dev.read( &row.front(), row.size() ) != static_cast< std::size_t >( row.size() )
+                       , "Unexpected end of image data." );
             this->_cc_policy.read( beg, end, view.row_begin(y) );
         }
     }
@@ -285,7 +286,8 @@ private:
                     io_error( "Raw packet exceeds the image size in targa file." );
                 }
 
-                this->_io_dev.read( &image_data[pixel], pixels_written );
+                io_error_if( this->_io_dev.read( &image_data[pixel], pixels_written ) != static_cast< std::size_t >( pixels_written )
+                       , "Unexpected end of image data." );
                 pixel += pixels_written;
             }
         }
